@@ -2,7 +2,6 @@
 import contextlib
 import json
 import os
-import re
 import shutil
 import tarfile
 import warnings
@@ -1026,7 +1025,6 @@ def run_case(desc):
             if not i_run:
                 os.chdir(scratch_root())
             i_exn, i_outside = None, []
-            origin_nomatch = False
             s = desc["schema"]
             cschema, schema_txt = "SchNone", None
             calls = {}
@@ -1085,15 +1083,6 @@ def run_case(desc):
                         return r
                 before_i = snap(d)
                 origin = abs_target if ospell == "abs" else ospell
-                if mk == "dir":
-                    # library fact (re, not signac): does the origin, read as the regex that literal schema text
-                    # becomes (backslashes doubled, '.' escaped), match the origin itself?
-                    root_n = os.path.normpath(origin)
-                    lit = re.sub(r"\\", r"\\\\", root_n).replace(".", r"\.")
-                    try:
-                        origin_nomatch = re.match(lit + r"(/|$)", root_n) is None
-                    except re.error:
-                        origin_nomatch = False       # re.error from signac: the model answers "outside the domain"
                 os.chdir(home_cwd if ospell != "abs" else cwd_deep)
                 try:
                     dstp2 = signac.get_project(os.path.join(d, "dst"))
@@ -1153,12 +1142,12 @@ def run_case(desc):
             coq_bool(asc), coq_ftab, coq_text, coq_parse, coq_bool(rel_target),
             coq_str("" if ospell == "abs" else ospell))
         coq = ("{| c_jobs := %s; c_oracle := %s; c_kind := %s; c_path := %s; c_schema := %s; c_pre := %s; "
-               "c_strip := %s; c_origin_nomatch := %s; x_exn := %s; x_map := %s; x_art := %s; x_src_same := %s; x_outside := %s; "
+               "c_strip := %s; x_exn := %s; x_map := %s; x_art := %s; x_src_same := %s; x_outside := %s; "
                "i_run := %s; i_exn := %s; i_dst := %s; i_outside := %s |}") % (
             coq_list([coq_job(i, sps[i], job_files[i]) for i in ids], "job"), oracle,
             {"dir": "KDir", "zip": "KZip", "tar": "KTar"}[mk], cspec, cschema,
             coq_list([coq_job(j.id, pre_sps[j.id], pre_files[j.id]) for j in pre_jobs], "job"),
-            coq_bool(desc["strip"] and mk in ("dir", "zip")), coq_bool(origin_nomatch),
+            coq_bool(desc["strip"] and mk in ("dir", "zip")),
             coq_exn(x_exn), coq_list([coq_str(x) for x in x_map], "str"), cart, coq_bool(src_same),
             coq_list([coq_str(x) for x in outside], "str"),
             coq_bool(i_run), coq_exn(i_exn), coq_fs(dst_tree), coq_list([coq_str(x) for x in i_outside], "str"))
@@ -1178,7 +1167,7 @@ def run_case(desc):
             if tloc:
                 kinds.append("target-next-to-workspace")
             if tname != "exp":
-                kinds.append("target-name-with-regex-metacharacter" if origin_nomatch else "target-name-other")
+                kinds.append("target-name-with-regex-metacharacter" if set(tname) & set("+?()[]") else "target-name-other")
         key = json.dumps({k: desc.get(k) for k in ("jobs", "asc", "kind", "path", "schema", "pre", "strip", "rel", "tspell", "ospell", "tloc", "tname")}, sort_keys=True)
         return Case(coq, desc, obs=obs, nontrivial=len(ids) >= 2, key=key, kinds=kinds)
 
